@@ -33,8 +33,9 @@ def write(prop: str, tier: str, seed: int, level: str, coverage: dict, wall_s: f
     ev = dict(property_id=prop, tier=tier, seed=int(seed), level=level, coverage=jsonable(coverage),
               assumptions=list(assumptions), wall_s=float(wall_s), violations=int(violations))
     _validate(ev)
-    os.makedirs(os.path.join(ROOT, 'evidence'), exist_ok=True)
-    path = os.path.join(ROOT, 'evidence', f'{prop}.json')
+    edir = os.environ.get('MC_EVIDENCE_DIR') or os.path.join(ROOT, 'evidence')  # mutation runs write elsewhere
+    os.makedirs(edir, exist_ok=True)
+    path = os.path.join(edir, f'{prop}.json')
     tmp = path + '.tmp'
     with open(tmp, 'w') as f:
         json.dump(ev, f, indent=1, sort_keys=True)
